@@ -64,6 +64,8 @@ func c19Tree(seed uint64, name string) *lib.Build {
 		}
 	default: // nested
 		b.PutFile("top.bin", rb(100000))
+		b.PutFile("dir with space/ünï çødé 日本.bin", rb(321))
+		b.PutFile("-dash/.hidden/"+strings.Repeat("long", 50)+".bin", rb(12))
 		b.PutFile("a/b/c/deep.bin", rb(5000))
 		b.PutFile("a/empty.bin", nil)
 		b.PutFile("a/b/x.bin", rb(1))
